@@ -1,5 +1,5 @@
 (* C05 — property theorems only. The hash H and the provider are arbitrary. *)
-From S3V Require Import lib.Bytes model.SigV4 proofs.SigV4Proofs.
+From S3V Require Import lib.Bytes model.SigV4Core model.SigV4 proofs.SigV4Proofs proofs.CanonProofs.
 Open Scope N_scope.
 
 (* a request is authenticated by its Authorization header only if: the header parses, names AWS4-HMAC-SHA256, the
@@ -13,6 +13,14 @@ Check C05_header_accept_sound : forall H auth r dl ak region service seed,
   v4_header_auth H auth r dl = Accept ak region service seed -> header_accept_spec H auth r ak region service.
 Print Assumptions C05_header_accept_sound.
 
+(* exactly: header authentication accepts if and only if every one of these holds - with the payload component determined by
+   the request (streaming marker, UNSIGNED-PAYLOAD, the empty hash for GET/HEAD, else the hash of the whole body of the
+   declared length) and the streaming seed equal to the verified signature *)
+Theorem C05_header_accept_iff : forall H auth r dl ak region service seed,
+  v4_header_auth H auth r dl = Accept ak region service seed <-> header_accept_exact H auth r dl ak region service seed.
+Proof. exact header_accept_iff. Qed.
+Print Assumptions C05_header_accept_iff.
+
 (* without a provider nothing is accepted *)
 Theorem C05_no_provider_no_accept : forall H r dl ak region service seed,
   v4_header_auth H None r dl <> Accept ak region service seed.
@@ -22,10 +30,33 @@ Proof.
 Qed.
 Print Assumptions C05_no_provider_no_accept.
 
-Theorem C05_tamper_needs_collision : forall H secret iso date region service c1 c2,
+(* the canonical request determines each of its six components (method, encoded path, canonical query string, canonical
+   header block, signed names, payload text): no two requests that differ in a signed component share it *)
+Theorem C05_canonical_request_injective : forall H, (forall x, wfb (H x)) ->
+  forall m1 p1 q1 sh1 pl1 m2 p2 q2 sh2 pl2,
+  no_nl m1 -> no_nl m2 -> wfb p1 -> wfb p2 -> wf_qs q1 -> wf_qs q2 ->
+  Forall (fun p => no_nl (fst p)) sh1 -> Forall (fun p => no_nl (fst p)) sh2 ->
+  canonical_request H m1 p1 q1 sh1 pl1 = canonical_request H m2 p2 q2 sh2 pl2 ->
+  m1 = m2 /\ uri_encode false p1 = uri_encode false p2 /\ canonical_query q1 false = canonical_query q2 false
+  /\ canonical_headers sh1 = canonical_headers sh2 /\ signed_names sh1 = signed_names sh2 /\ payload_text H pl1 = payload_text H pl2.
+Proof. exact canonical_request_injective. Qed.
+Print Assumptions C05_canonical_request_injective.
+
+(* tamper evidence: two requests accepted under the same signature, key and scope agree in every canonical component, or
+   the hash collides on their canonical requests, or the HMAC chain collides on two different strings to sign *)
+Theorem C05_tamper_needs_collision : forall H, (forall x, wfb (H x)) ->
+  forall secret iso date region service m1 p1 q1 sh1 pl1 m2 p2 q2 sh2 pl2,
+  no_nl m1 -> no_nl m2 -> wfb p1 -> wfb p2 -> wf_qs q1 -> wf_qs q2 ->
+  Forall (fun p => no_nl (fst p)) sh1 -> Forall (fun p => no_nl (fst p)) sh2 ->
+  let c1 := canonical_request H m1 p1 q1 sh1 pl1 in let c2 := canonical_request H m2 p2 q2 sh2 pl2 in
   signature H c1 secret iso date region service = signature H c2 secret iso date region service ->
-  c1 = c2 \/ (c1 <> c2 /\ signature H c1 secret iso date region service = signature H c2 secret iso date region service).
-Proof. exact same_signature_same_canon_or_collision. Qed.
+  (m1 = m2 /\ uri_encode false p1 = uri_encode false p2 /\ canonical_query q1 false = canonical_query q2 false
+   /\ canonical_headers sh1 = canonical_headers sh2 /\ signed_names sh1 = signed_names sh2 /\ payload_text H pl1 = payload_text H pl2)
+  \/ (c1 <> c2 /\ H c1 = H c2)
+  \/ (string_to_sign H c1 iso date region service <> string_to_sign H c2 iso date region service
+      /\ calculate_signature H (string_to_sign H c1 iso date region service) secret date region service
+         = calculate_signature H (string_to_sign H c2 iso date region service) secret date region service).
+Proof. exact tamper_needs_collision. Qed.
 Print Assumptions C05_tamper_needs_collision.
 
 (* the AWS documentation example (GET /test.txt with Range), evaluated with the Gallina SHA-256/HMAC *)
